@@ -1,4 +1,4 @@
-import DcmVerif.Proofs.Group
+import DcmVerif.Proofs.GroupOrder
 /-! Property theorems for C18. Statements only; proofs are by reference to `Proofs/`. -/
 set_option autoImplicit false
 
@@ -46,5 +46,44 @@ theorem stack_group_skip (joins : List Nat → Nat → Bool) (pre : List Nat) (b
 theorem stack_group_strict (joins : List Nat → Nat → Bool) (bad : Nat) (post acc : List Nat)
     (hb : joins acc bad = false) : stackGroup joins false (bad :: post) acc = none :=
   Grp.stackGroup_strict joins bad post acc hb
+
+/-! ### independence of the path order (`Proofs/GroupOrder.lean`) -/
+
+/-- the loop over readable image files is the fold of `place` -/
+theorem loop_on_files (closeB : C → C → Bool) (warn : Bool) (eOf : Nat → E) (cOf : Nat → C)
+    (ids : List Nat) (acc : List (E × Subs C)) :
+    groupLoop closeB warn (ids.map fun id => Item.file id (eOf id) (cOf id)) acc =
+      .ok (groupIds closeB eOf cOf ids acc) :=
+  Grp.groupLoop_files closeB warn eOf cOf ids acc
+
+/-- **who shares a group is decided by the keys alone**: when closeness of the tolerance-compared
+    keys is reflexive, symmetric and transitive on the values at hand, two files share a group iff
+    they agree on the exact keys and are close on the others -/
+theorem together_iff (closeB : C → C → Bool) (eOf : Nat → E) (cOf : Nat → C)
+    (hrefl : ∀ c, closeB c c = true)
+    (hsymm : ∀ a b, closeB a b = true → closeB b a = true)
+    (htrans : ∀ a b c, closeB a b = true → closeB b c = true → closeB a c = true)
+    (ids : List Nat) (i j : Nat) (hi : i ∈ ids) (hj : j ∈ ids) :
+    together (groupIds closeB eOf cOf ids []) i j ↔
+      (eOf i = eOf j ∧ closeB (cOf i) (cOf j) = true) :=
+  Grp.together_iff closeB eOf cOf hrefl hsymm htrans ids i j hi hj
+
+/-- **independently of path order**: any permutation of the paths yields the same partition -/
+theorem group_order_independent (closeB : C → C → Bool) (eOf : Nat → E) (cOf : Nat → C)
+    (hrefl : ∀ c, closeB c c = true)
+    (hsymm : ∀ a b, closeB a b = true → closeB b a = true)
+    (htrans : ∀ a b c, closeB a b = true → closeB b c = true → closeB a c = true)
+    (ids ids' : List Nat) (hperm : ids.Perm ids') (i j : Nat) (hi : i ∈ ids) (hj : j ∈ ids) :
+    together (groupIds closeB eOf cOf ids []) i j ↔ together (groupIds closeB eOf cOf ids' []) i j :=
+  Grp.group_order_independent closeB eOf cOf hrefl hsymm htrans ids ids' hperm i j hi hj
+
+/-- F28 (recorded finding): the hypothesis cannot be dropped — with chained tolerances the
+    first-fit grouping depends on the order -/
+theorem order_matters_without_transitivity :
+    let closeB : Nat → Nat → Bool := fun a b => decide (a ≤ b + 5 ∧ b ≤ a + 5)
+    let cOf : Nat → Nat := fun id => 4 * id
+    groupIds closeB (fun _ => ()) cOf [0, 1, 2] [] = [((), [(0, [0, 1]), (8, [2])])] ∧
+    groupIds closeB (fun _ => ()) cOf [1, 0, 2] [] = [((), [(4, [1, 0, 2])])] :=
+  Grp.order_matters_without_transitivity
 
 end C18
